@@ -121,6 +121,22 @@ class Session:
             return
         cols = check_cols if check_cols is not None else req
         hidden = False
+        if sub:
+            # the re-indexed columns describe the loaded subsample table: slices back to back, A before B, ending at its length
+            H = cat.halos
+            off = 0
+            for ab in 'AB':
+                if f'npstart{ab}' in H.colnames and f'npout{ab}' in H.colnames and (sub is True or sub.get(ab)):
+                    st, n = np.asarray(H[f'npstart{ab}']).astype(np.int64), np.asarray(H[f'npout{ab}']).astype(np.int64)
+                    run.count('index_column_invariants_checked')
+                    if len(st) and not (st[0] == off and np.array_equal(st[1:], st[:-1] + n[:-1])):
+                        i = 0 if st[0] != off else int(np.nonzero(st[1:] != st[:-1] + n[:-1])[0][0]) + 1
+                        run.violation('index-columns-not-back-to-back', dict(subsample=ab, row=i, npstart=int(st[i]), expected=int(off if i == 0 else st[i - 1] + n[i - 1]), **desc))
+                        break
+                    off += int(n.sum())
+            else:
+                if off != len(cat.subsamples) and off:
+                    run.violation('index-columns-not-back-to-back', dict(problem='slices do not end at the length of the subsample table', sum_npout=off, table_rows=len(cat.subsamples), **desc))
         for c in cols:
             rn = result_name(c, self.cleaned)
             if self.cleaned and c == 'N':
@@ -227,6 +243,13 @@ def tree_session(run, rng, k, quick):
                     S.request(req, 'sel', subsel, label='subset+subsamples')
                 else:
                     S.request(req, label='subset')
+            # every ordered pair of the merger-history columns (their shapes differ: per-halo scalars, vectors, one entry per earlier epoch)
+            if cleaned:
+                mp = [n for n in progen if n.endswith('_mainprog')]
+                for a_ in mp:
+                    for b_ in mp:
+                        if a_ != b_:
+                            S.request([a_, b_], label='mainprog-ordered-pair')
             # the request given as a bare name, a tuple (documented: str or list of str, 'any other iter, like tuple'); verbose mode (reports only)
             for c in ('x_com', 'sigmavMid_L2com', 'N', 'r25_L2com', 'id') + (('N_merge',) if cleaned else ()):
                 S.request(c, check_cols=[c], label='bare-string')
@@ -235,6 +258,9 @@ def tree_session(run, rng, k, quick):
             S.request(['npstartA', 'x_com'], 'sel', subsel, verbose=True, label='verbose+subsamples')
             S.request('DEFAULT_FIELDS', check_cols=[n for n in user if n != 'N'] + (['N_total'] if cleaned else ['N']), label='default')
             S.request('DEFAULT_FIELDS', 'sel', subsel, check_cols=[n for n in user if n != 'N'], label='default+subsamples')
+            # both subsamples together (A laid out before B), whatever the tree's own selection is
+            for req, sb in ((['N'], True), (['npoutA', 'npstartB', 'id'], dict(A=True, B=True, pos=True)), (['npstartA', 'npoutA', 'npstartB', 'npoutB'], dict(B=True, A=True, pid=True))):
+                S.request(req, 'both' + repr(sb), sb, label='both-subsamples')
             # subsamples requested with columns that do not include the index columns
             for req in (['N'], ['id', 'x_com'], ['r25_L2com']):
                 S.request(req, 'sel', subsel, label='no-index-cols+subsamples')
